@@ -492,13 +492,30 @@ func recordXmlTokens(data []byte) (toks []string, final string) {
 	}
 }
 
-func readXmlImpl(data []byte) (out string) {
+// readXmlImpl reads the text through both routes - ReadXml(in) and ReadXml(in, option) with an option that changes
+// nothing (the command always passes one) - and answers with the tree when they agree
+func readXmlImpl(data []byte) string {
+	a := readXmlRoute(data, false)
+	b := readXmlRoute(data, true)
+	if a != b {
+		return "ROUTE-MISMATCH ReadXml(in): " + a + " ReadXml(in, option): " + b
+	}
+	return a
+}
+
+func readXmlRoute(data []byte, withOption bool) (out string) {
 	defer func() {
 		if r := recover(); r != nil {
 			out = fmt.Sprintf("PANIC %v", r)
 		}
 	}()
-	c, err := xsel.ReadXml(bytes.NewReader(data))
+	var c xsel.Cursor
+	var err error
+	if withOption {
+		c, err = xsel.ReadXml(bytes.NewReader(data), func(d *xml.Decoder) { d.Strict = true })
+	} else {
+		c, err = xsel.ReadXml(bytes.NewReader(data))
+	}
 	if err != nil {
 		return "E"
 	}
